@@ -615,6 +615,23 @@ Section StmtCases.
     intros H. rewrite forallb_forall in *. intros x Hx. apply H. apply in_rev. exact Hx.
   Qed.
 
+  Lemma okE_compare1 l op c : okE l -> okE c -> okE (Compare l [op] [c]).
+  Proof.
+    intros Hl Hc. split; [|reflexivity]. cbn [core length Nat.eqb Nat.leb forallb].
+    rewrite (ecore_of _ Hl), (ecore_of _ Hc). reflexivity.
+  Qed.
+  Lemma okE_hook_wrap p m name decs decorated : okE decorated -> okE (hook_wrap p m name decs decorated).
+  Proof.
+    intros H. unfold hook_wrap. destruct (m && is_class_hook name); [|exact H].
+    destruct decs as [|d0 dr].
+    - apply okE_call; [apply okE_name|]. constructor; [exact H|constructor].
+    - apply okE_call; [|constructor; [exact H|constructor]].
+      apply okE_lambda; [|cbn; lia|reflexivity|constructor|constructor].
+      apply okE_ifexp; [|apply okE_call; [apply okE_name|constructor; [apply okE_name|constructor]]|apply okE_name].
+      apply okE_compare1; (apply okE_call; [apply okE_name|]); (constructor; [|constructor]); [apply okE_name|].
+      apply okE_lambda0. apply okE_cint. lia.
+  Qed.
+
   Lemma S_functiondef name ln a b decs : Forall (S cfg) b -> S cfg (SFunctionDef name ln a b decs).
   Proof.
     intros Hb c p es Hc H. cbn [stmt_ok] in Hc. apply andb_prop in Hc as [Hc Cb]. apply andb_prop in Hc as [Ca Cd].
@@ -646,8 +663,7 @@ Section StmtCases.
       - rewrite Lkd. apply Nat.eqb_eq. exact C4.
       - exact Hde.
       - exact Hkd. }
-    match goal with |- okE (if ?x then _ else _) => destruct x end; [|exact Hlam].
-    apply okE_call; [apply okE_name|]. constructor; [exact Hlam|constructor].
+    apply okE_hook_wrap. exact Hlam.
   Qed.
 
   Lemma rmap_tr_core n : forall l l', forallb core l = true -> rmap (tr n) l = inl l' -> forallb core l' = true.
